@@ -9,7 +9,22 @@ variables produced by cnfgen are compared with the extracted Coq model
 output.  On a disagreement the implementation's output is evaluated on ALL
 assignments of the transformed formula (bit-parallel truth tables, <= 20
 variables) against the induced assignment, to find an input on which the
-property itself fails."""
+property itself fails.
+
+Streams added by the strengthening round (notes/LARGE_STREAMS.md), run FIRST as a corpus:
+  thresholds-wide-clause   one clause of width 17..40 with repeated literals and opposite pairs (+ a short one)
+                           under the transformations whose output stays small (the clause is trimmed by a
+                           size estimate), ite / lift 2 on width 17 (2^17 clauses);
+  thresholds-arity         arity / left degree 15..17 (xor, maj, one, lift, linear forms, compressions) and
+                           63..1000 (or, eq, neq) on formulas with unit and binary clauses;
+  thresholds-many-variables  257..1025 variables, literals around 255..258 and N, every transformation k <= 2;
+  shapes-labels            repeated labels (two new_variable('p'), a label equal to a default label, repeated
+                           block labels, labels with braces, empty label, NO label), every transformation k <= 2;
+  history                  one formula object edited through its public API (clauses naming new variables, raises
+                           by several units, groups added) and transformed again after each edit; chains.
+Beyond 20 variables the failing-input search evaluates the implementation's output on structured assignments
+(all true / all false / single flips), on assignments falsifying a clause that only one of the two outputs
+contains, and on random ones."""
 import itertools
 import os
 import subprocess
@@ -28,7 +43,9 @@ META = dict(
          'variable), and that it has the documented number of variables; the polarity flip is proved NOT to keep the variable '
          'count when trailing variables are unused (flip_numvar_refuted). The model is tied to the code by comparing, in order, '
          'the clauses and the variable count cnfgen produces with those of the extracted model on seeded-random formulas, all '
-         'transformations, arities 1..4, thresholds -1..k+1, random compression graphs, medium formulas and the command line.',
+         'transformations, arities 1..4, thresholds -1..k+1, random compression graphs, medium formulas and the command line; '
+         'also clauses of width 17-40, arities and degrees 15-17 and 63-1000, formulas with 257-1025 variables, repeated '
+         'and missing labels, and formula objects edited between two transformations.',
     note='Trusted: Coq kernel, extraction, OCaml driver, the harness. The model is hand-written; agreement with the code is '
          'checked only on the inputs of the run (see input_distribution). Labels/headers of the new formula are not modelled. '
          'Theorems assume literals within 1..N (invariant of CNF objects built with check=True).',
@@ -130,7 +147,7 @@ def cnf_table(F, lit_table, full):
     return out
 
 
-def property_fails(name, params, N, F, numvar_out, out):
+def property_fails(name, params, N, F, numvar_out, out, model_out=None):
     """Search an assignment of the transformed formula on which it disagrees with the
     induced assignment; or a wrong variable count.  Returns a dict or None."""
     doc = documented_numvar(name, params, N)
@@ -142,7 +159,7 @@ def property_fails(name, params, N, F, numvar_out, out):
         return {'numvar': numvar_out, 'documented': doc}
     n = max(doc, maxlit)
     if n > 20:
-        return None
+        return property_fails_sampled(name, params, N, F, numvar_out, out, model_out or [])
     full, T = tables(n)
     if name == 'flip':
         dec = [None] + [full & ~T[v] for v in range(1, N + 1)]
@@ -181,6 +198,119 @@ def property_fails(name, params, N, F, numvar_out, out):
     b = (diff & -diff).bit_length() - 1
     return {'assignment': {str(v): bool((b >> (v - 1)) & 1) for v in range(1, n + 1)},
             'transformed_formula_value': bool((got >> b) & 1), 'induced_assignment_value': bool((want >> b) & 1)}
+
+
+# --------------------------------------------------------------------------
+# failing-input search beyond 20 variables (explicit assignments)
+# --------------------------------------------------------------------------
+def clip(xs, keep=60):
+    """a big clause list is kept in a replay file as its length, its head and its tail"""
+    if not isinstance(xs, list) or len(xs) <= 2 * keep:
+        return xs
+    return dict(length=len(xs), head=xs[:keep], tail=xs[-keep:])
+
+
+def first_difference(a, b):
+    n = min(len(a), len(b))
+    for i in range(n):
+        if list(a[i]) != list(b[i]):
+            return dict(index=i, implementation=a[i], model=b[i])
+    if len(a) != len(b):
+        return dict(index=n, implementation_length=len(a), model_length=len(b))
+    return None
+
+
+def decode_assignment(name, params, N, b):
+    """b: list of booleans indexed by the NEW variables (b[0] unused).  Returns (values of the
+    original variables as a list indexed 1..N, side condition)"""
+    val = [None] * (N + 1)
+    side = True
+    if name == 'flip':
+        for v in range(1, N + 1):
+            val[v] = not b[v]
+    elif name == 'ite':
+        for v in range(1, N + 1):
+            val[v] = b[N + v] if b[v] else b[2 * N + v]
+    elif name == 'lift':
+        k = params[0]
+        for v in range(1, N + 1):
+            xs = [(v - 1) * 2 * k + i for i in range(1, k + 1)]
+            ys = [(v - 1) * 2 * k + k + i for i in range(1, k + 1)]
+            val[v] = any(b[x] and b[y] for x, y in zip(xs, ys))
+            if sum(1 for y in ys if b[y]) != 1:
+                side = False
+    elif name in ('xorcomp', 'majcomp'):
+        adj = params[1]
+        pred = (lambda bits: sum(bits) % 2 == 1) if name == 'xorcomp' else (lambda bits: 2 * sum(bits) >= len(bits))
+        for v in range(1, N + 1):
+            val[v] = pred([b[u] for u in adj[v - 1]])
+    else:
+        k = params[0]
+        pred = gadget_predicate(name, params)
+        for v in range(1, N + 1):
+            val[v] = pred([b[(v - 1) * k + i] for i in range(1, k + 1)])
+    return val, side
+
+
+def eval_cnf(a, clauses):
+    for c in clauses:
+        for l in c:
+            if a[l] if l > 0 else not a[-l]:
+                break
+        else:
+            return False
+    return True
+
+
+def property_fails_sampled(name, params, N, F, numvar_out, out, model_out, budget_s=25.0):
+    import random
+    import time
+    rng = random.Random(0)
+    t0 = time.time()
+    doc = documented_numvar(name, params, N)
+    n = max([doc, numvar_out] + [abs(l) for c in out for l in c])
+
+    def blank(v):
+        return [v] * (n + 1)
+
+    def candidates():
+        yield blank(False)
+        yield blank(True)
+        si = {tuple(c) for c in out}
+        sm = {tuple(c) for c in model_out}
+        only = [c for c in out if tuple(c) not in sm][:40] + [c for c in model_out if tuple(c) not in si][:40]
+        for c in only:
+            for fill in ('f', 't', 'r', 'r', 'r', 'r', 'r', 'r'):
+                a = blank(fill == 't')
+                if fill == 'r':
+                    p = rng.choice([0.2, 0.5, 0.8])
+                    for v in range(1, n + 1):
+                        a[v] = rng.random() < p
+                for l in c:
+                    if abs(l) <= n:
+                        a[abs(l)] = l < 0
+                yield a
+        for v in range(1, min(n, 150) + 1):
+            a = blank(False)
+            a[v] = True
+            yield a
+            a = blank(True)
+            a[v] = False
+            yield a
+        for _ in range(400):
+            p = rng.choice([0.1, 0.3, 0.5, 0.7, 0.9])
+            yield [False] + [rng.random() < p for _ in range(n)]
+
+    for b in candidates():
+        val, side = decode_assignment(name, params, N, b)
+        want = side and all(any((val[l] if l > 0 else not val[-l]) for l in c) for c in F)
+        got = eval_cnf(b, out)
+        if want != got:
+            return {'assignment': {str(v): b[v] for v in range(1, n + 1)},
+                    'transformed_formula_value': got, 'induced_assignment_value': want}
+        if time.time() - t0 > budget_s:
+            break
+    return None
 
 
 # --------------------------------------------------------------------------
@@ -318,9 +448,9 @@ def observe(thunk, G_before):
 
 
 # --------------------------------------------------------------------------
-def judge(ctx, stream, descr, name, params, N, F, got, rep, valid=True):
+def judge(ctx, stream, descr, name, params, N, F, got, rep, valid=True, site=None):
     """compare implementation outcome `got` with model reply `rep`"""
-    site = IMPL_NAME[name]
+    site = site or IMPL_NAME[name]
     if is_error(rep):
         ctx.violation('correspondence', 'model error', dict(input=descr, model=rep), False, site='model-error', cls=stream)
         return
@@ -334,13 +464,13 @@ def judge(ctx, stream, descr, name, params, N, F, got, rep, valid=True):
                           dict(input=descr, implementation=list(got), model=list(model)), False, site=site, cls='error-class')
         else:
             ctx.violation('counterexample', 'transformation raised %s on a valid input' % got[1],
-                          dict(input=descr, implementation=list(got), model=[model[1], model[2]]), True,
+                          dict(input=descr, implementation=list(got), model=[model[1], clip(model[2])]), True,
                           site=site, cls='raises-' + got[1])
         return
     if model[0] == 'exc':
         ctx.disagreements_checked += 1
         ctx.violation('correspondence', 'invalid argument accepted; the model (Subst.v) raises ValueError',
-                      dict(input=descr, implementation=[got[1], got[2]], model=list(model)), False, site=site, cls='accepted-invalid')
+                      dict(input=descr, implementation=[got[1], clip(got[2])], model=list(model)), False, site=site, cls='accepted-invalid')
         return
     same_clauses = got[2] == model[2]
     doc = documented_numvar(name, params, N)
@@ -357,32 +487,35 @@ def judge(ctx, stream, descr, name, params, N, F, got, rep, valid=True):
         # agreement with the faithful model, which is proved to miss the documented count (flip_numvar_refuted)
         cls = 'numvar-unused-trailing-variables' if name == 'flip' else 'numvar'
         ctx.violation('counterexample', 'the transformed formula has %d variables, documented %d' % (got[1], doc),
-                      dict(input=descr, implementation_numvar=got[1], documented_numvar=doc, clauses=got[2],
+                      dict(input=descr, implementation_numvar=got[1], documented_numvar=doc, clauses=clip(got[2]),
                            theorem='Prop_C05.v: C05_flip_numvar_refuted'), True, site=site, cls=cls)
         return
     witness = None
     try:
-        witness = property_fails(name, params, N, F, got[1], got[2])
+        witness = property_fails(name, params, N, F, got[1], got[2], model[2])
     except Exception as e:  # malformed output
         witness = {'malformed-output': repr(e)}
     if witness is not None:
         cls = 'semantics' if 'assignment' in witness else ('numvar' if 'numvar' in witness else 'malformed')
         ctx.violation('counterexample', 'the transformed formula is not the composition of the formula with the gadget',
-                      dict(input=descr, witness=witness, implementation=[got[1], got[2]], model=[model[1], model[2]]),
+                      dict(input=descr, witness=witness, implementation=[got[1], clip(got[2])], model=[model[1], clip(model[2])],
+                           first_difference=first_difference(got[2], model[2])),
                       True, site=site, cls=cls)
     else:
         ctx.violation('correspondence', 'output differs from the model (Subst.v); theorems C05_* no longer cover the code',
-                      dict(input=descr, implementation=[got[1], got[2]], model=[model[1], model[2]],
+                      dict(input=descr, implementation=[got[1], clip(got[2])], model=[model[1], clip(model[2])],
+                           first_difference=first_difference(got[2], model[2]),
                            correspondence='Subst.v <-> substitutions.py:' + site), False, site=site, cls='order-or-shape')
 
 
 def run_cases(ctx, cases):
     """cases: list of (stream, descr, name, params, N, F, thunk, key, nontrivial)"""
     replies = ctx.model.batch([model_request(c[2], c[4], c[5], c[3]) for c in cases])
-    for (stream, descr, name, params, N, F, thunk, key, nontrivial), rep in zip(cases, replies):
+    for case, rep in zip(cases, replies):
+        stream, descr, name, params, N, F, thunk, key, nontrivial = case[:9]
         ctx.count(stream, key, nontrivial, sample=descr)
         got = observe(thunk, None)
-        judge(ctx, stream, descr, name, params, N, F, got, rep)
+        judge(ctx, stream, descr, name, params, N, F, got, rep, site=case[9] if len(case) > 9 else None)
 
 
 def parse_dimacs(text):
@@ -458,6 +591,358 @@ def run_cli(ctx, quick):
         judge(ctx, 'cli', descr, name, params, N, F, got, rep)
 
 
+# --------------------------------------------------------------------------
+# thresholds / shapes / history streams (notes/LARGE_STREAMS.md)
+# --------------------------------------------------------------------------
+LABEL_SHAPES = [
+    ('two-variables-same-label', [('var', 'p'), ('var', 'p')]),
+    ('label-equals-default-of-another', [('anon', 2), ('var', 'x1')]),
+    ('default-equals-earlier-label', [('var', 'x2'), ('anon', 1)]),
+    ('two-blocks-same-label', [('block', (2,), 'z_{}'), ('block', (2,), 'z_{}')]),
+    ('label-without-placeholder', [('var', 'p'), ('anon', 1), ('var', 'p'), ('block', (2, 2), 'p')]),
+    ('labels-with-braces', [('var', '{}'), ('var', '{0}'), ('var', '}{'), ('var', 'x_{1}')]),
+    ('empty-label', [('var', ''), ('var', '')]),
+    ('block-default-label', [('block', (2,), None), ('block', (2,), None)]),
+    ('label-of-substituted-variable', [('var', '{p}^1'), ('var', 'p'), ('var', '{p}^2')]),
+    ('no-label', [('var', None), ('anon', 1), ('var', None)]),
+]
+
+
+def build_spec(CNF, spec, F):
+    """a formula whose variables are created by the given sequence of public calls"""
+    G = CNF()
+    for sp in spec:
+        if sp[0] == 'anon':
+            G.update_variable_number(G.number_of_variables() + sp[1])
+        elif sp[0] == 'var':
+            G.new_variable(sp[1]) if sp[1] is not None else G.new_variable()
+        else:
+            G.new_block(*sp[1], label=sp[2]) if sp[2] is not None else G.new_block(*sp[1])
+    for c in F:
+        G.add_clause(c)
+    return G
+
+
+def frozen(r):
+    """thunk replaying an outcome computed earlier (the source object is edited afterwards)"""
+    def thunk():
+        if r[0] == 'ok':
+            return r[1]
+        raise r[1]
+    return thunk
+
+
+def run_now(thunk):
+    try:
+        return ('ok', thunk())
+    except Exception as e:  # noqa
+        return ('exc', e)
+
+
+NEGOP = {'==': '!=', '<': '>=', '>': '<=', '<=': '>', '>=': '<', '!=': '=='}
+
+
+def linear_size(n, op, C):
+    """number of clauses of add_linear on n literals (used only to keep the corpus within its budget)"""
+    from math import comb
+
+    def geq(c):
+        return 0 if c <= 0 else (1 if c > n else comb(n, n - c + 1))
+    if op == '>=':
+        return geq(C)
+    if op == '>':
+        return geq(C + 1)
+    if op == '<=':
+        return geq(n - C)
+    if op == '<':
+        return geq(n - C + 1)
+    if op == '==':
+        return geq(C) + geq(n - C)
+    return 0 if (C < 0 or C > n) else comb(n, C)
+
+
+def gadget_cost(name, params, l):
+    """number of clauses that replace literal l (budget estimate, not an oracle)"""
+    pos = l > 0
+    k = params[0] if params else None
+    if name == 'flip':
+        return 1
+    if name == 'ite':
+        return 2
+    if name == 'lift':
+        return k
+    if name in ('xorcomp', 'majcomp'):
+        d = len(params[1][abs(l) - 1])
+        if name == 'xorcomp':
+            return 2 ** (d - 1) if d else (1 if pos else 0)
+        return linear_size(d, '>=', (d + 1) // 2) if pos else linear_size(d, '<=', (d - 1) // 2)
+    if name == 'xor':
+        return 2 ** (k - 1)
+    if name == 'or':
+        return 1 if pos else k
+    if name == 'maj':
+        return linear_size(k, '>=', (k + 1) // 2) if pos else linear_size(k, '<=', (k - 1) // 2)
+    if name == 'one':
+        return linear_size(k, '==', 1) if pos else k
+    if name in ('eq', 'neq', 'eq_invert'):
+        return k if pos == (name == 'eq') else 2
+    op, C = {'atleast': ('>=', None), 'atmost': ('<=', None), 'exact': ('==', None), 'anybut': ('!=', None)}.get(name, (None, None))
+    if op is None:
+        op, C = params[1], params[2]
+    else:
+        C = params[1]
+    return linear_size(k, op if pos else NEGOP[op], C)
+
+
+def trim_formula(F, cost, cap):
+    """keep the output below `cap` clauses: a literal whose gadget would push the output over what is left of
+    the budget is replaced by its negation when that is cheaper, else dropped"""
+    left = cap
+    out = []
+    for c in F:
+        prod = 1
+        new = []
+        for l in c:
+            if prod * cost(l) <= left:
+                new.append(l)
+                prod *= cost(l)
+            elif prod * cost(-l) <= left:
+                new.append(-l)
+                prod *= cost(-l)
+        out.append(new)
+        left = max(1, left - prod)
+    return out
+
+
+def wide_clause(rng, w, nv, opposite=True):
+    c = [rng.choice([1, -1]) * rng.randint(1, nv) for _ in range(w)]
+    c[3] = c[0]                       # repeated literal
+    c[w - 2] = c[w // 2]
+    if opposite:
+        c[5] = -c[1]                  # opposite pair
+        c[w - 1] = -c[2]
+    else:
+        # no opposite pair: one sign per variable
+        sign = {}
+        c = [sign.setdefault(abs(l), 1 if l > 0 else -1) * abs(l) for l in c]
+    return c
+
+
+def low_degree_graph(rng, L, R, maxd=2):
+    return [sorted(rng.sample(range(1, R + 1), rng.choice([0, 1, 1, 1, 2][:maxd + 3]) if R >= 2 else 0)) for _ in range(L)]
+
+
+CHEAP_K1 = [('flip', []), ('or', [1]), ('xor', [1]), ('maj', [1]), ('eq', [1]), ('neq', [1]), ('eq_invert', [1]), ('one', [1]),
+            ('atleast', [1, 1]), ('atmost', [1, 0]), ('exact', [1, 1]), ('anybut', [1, 0]), ('linear', [1, '<', 1]),
+            ('linear', [1, '>', 0]), ('lift', [1]), ('or', [2]), ('eq', [2]), ('one', [2]), ('atleast', [2, 1]), ('atleast', [2, 2])]
+TWO_PER_LITERAL = [('ite', []), ('lift', [2]), ('xor', [2]), ('neq', [2]), ('maj', [2])]
+
+
+def large_cases(ctx, quick, CNF, S):
+    """the corpus of threshold / shape cases: list of case tuples for run_cases"""
+    rng = ctx.rng
+    planned = []     # (stream, tag, name, params, N, F, cap, builder)
+
+    def plain(N, F):
+        return lambda: build_formula(CNF, N, F, 'anonymous')
+
+    # ---- wide clauses ----
+    widths = [17, 18, 33, 40] if quick else [17, 18, 20, 24, 31, 32, 33, 40]
+    for wi, w in enumerate(widths):
+        for variant in range(3 if quick else 6):
+            nv = [12, w + 3, 5, w][(wi + variant) % 4]
+            opposite = variant % 3 != 1
+            c = wide_clause(rng, w, nv, opposite)
+            # short clauses that hold when every literal of the wide clause is false (so that the wide clause is
+            # not subsumed): one first occurrence, one negated first occurrence of another variable
+            firsts = []
+            for l in c:
+                if abs(l) not in [abs(x) for x in firsts]:
+                    firsts.append(l)
+            if len(firsts) >= 3 and variant % 3 == 0:
+                F = [[firsts[0], -firsts[-1]], c, [-firsts[1], firsts[2], firsts[2]]]
+            else:
+                F = [c]
+            tag = 'width %d %s' % (w, 'with opposite pair' if opposite else 'no opposite pair')
+            trs = list(CHEAP_K1)
+            R = nv + 2
+            trs.append(('xorcomp', [R, low_degree_graph(rng, nv, R, 1)]))
+            trs.append(('majcomp', [R, low_degree_graph(rng, nv, R, 2)]))
+            if quick:
+                trs = [t for i, t in enumerate(trs) if t[0] in ('flip', 'xorcomp', 'majcomp') or (i + wi + variant) % 2 == 0]
+            for name, params in trs:
+                planned.append(('thresholds-wide-clause', tag, name, params, nv, F, 3000 if quick else 20000, None))
+    # 2^17 clauses: ite / lift 2 (quick: one each), more in the thorough tier
+    big = [('ite', [], 17), ('lift', [2], 17)] if quick else \
+        [(n, p, w) for (n, p) in TWO_PER_LITERAL for w in (17, 18)] + [('eq_invert', [1], 17), ('or', [2], 17)]
+    for name, params, w in big:
+        nv = 12
+        c = wide_clause(rng, w, nv, True)
+        if name in ('eq_invert', 'or'):
+            c = [abs(l) if name == 'eq_invert' else -abs(l) for l in c]      # the expensive polarity
+        planned.append(('thresholds-wide-clause', 'width %d, 2^%d clauses' % (w, w), name, params, nv, [[-c[0]], c], 300000, None))
+
+    # ---- arities / left degrees ----
+    Fa = [[1], [-2], [2, -3], [3, 3], [1, -1]]
+    for k in (15, 16, 17):
+        trs = [('maj', [k]), ('one', [k]), ('lift', [k]), ('eq', [k]), ('neq', [k]), ('eq_invert', [k]), ('or', [k]),
+               ('atleast', [k, 1]), ('atleast', [k, k]), ('atleast', [k, k - 1]), ('atmost', [k, 0]), ('atmost', [k, k - 1]),
+               ('atmost', [k, 1]), ('exact', [k, 0]), ('exact', [k, k]), ('exact', [k, 1]), ('anybut', [k, 0]), ('anybut', [k, 1]),
+               ('anybut', [k, k]), ('linear', [k, '<', 1]), ('linear', [k, '>', k - 1]), ('linear', [k, '<', k]),
+               ('linear', [k, '>', 0]), ('linear', [k, '==', k - 1]), ('linear', [k, '!=', k - 1]), ('linear', [k, '<=', k]),
+               ('linear', [k, '>=', 0])]
+        if quick:
+            trs = [t for i, t in enumerate(trs) if (i + k) % 3 != 0 or t[0] in ('maj', 'one', 'lift')]
+        for name, params in trs:
+            planned.append(('thresholds-arity', 'arity %d' % k, name, params, 3, Fa, 30000 if quick else 120000, None))
+        for fn in ('xorcomp', 'majcomp'):
+            R = k + 3
+            adj = [sorted(rng.sample(range(1, R + 1), k)), [1, R], []]
+            planned.append(('thresholds-arity', 'left degree %d' % k, fn, [R, adj], 3, [[1] if k % 2 else [-1], [2, -3]], 70000 if k == 17 or not quick else 20000, None))
+    # xor of arity 17 / xor compression with left degree 17 on one short clause: 2^16 clauses
+    xs = [('xor', [17], 2, [[-2]])]     # (left degree 17 is in the loop above)
+    if not quick:
+        xs += [('xorcomp', [20, [sorted(rng.sample(range(1, 21), 17)), [3]]], 2, [[1]]),
+               ('xor', [17], 1, [[1]]), ('xor', [16], 2, [[1, -2]][:1] + [[2]]), ('xor', [18], 1, [[-1]]), ('xor', [15], 1, [[1]]),
+               ('xorcomp', [20, [sorted(rng.sample(range(1, 21), 17)), [3]]], 2, [[-1]]),
+               ('xorcomp', [18, [list(range(1, 19))]], 1, [[1]]), ('majcomp', [18, [list(range(1, 19))]], 1, [[-1]])]
+    for name, params, N, F in xs:
+        planned.append(('thresholds-arity', 'arity or left degree %d, one short clause' % (params[0] if name == 'xor' else len(params[1][0])),
+                        name, params, N, F, 300000, None))
+    # large arities: only gadgets that stay small both in cnfgen and in the model (Comb.v's combs needs 2^k steps
+    # when k of k elements are chosen, so '>= 1' on k literals is out of reach of the model for large k)
+    ks = [64, 65, 129, 256, 257, 258, 1000] if quick else [63, 64, 65, 127, 128, 129, 255, 256, 257, 258, 300, 1000, 1025]
+    for k in ks:
+        trs = [('or', [k]), ('eq', [k]), ('neq', [k]), ('eq_invert', [k]), ('exact', [k, 0]), ('anybut', [k, 0]),
+               ('atleast', [k, 0]), ('atleast', [k, k + 1]), ('atmost', [k, -1]), ('atmost', [k, k]), ('exact', [k, -1]),
+               ('exact', [k, k + 1]), ('anybut', [k, -1]), ('anybut', [k, k + 1]), ('linear', [k, '<', 0]), ('linear', [k, '>', k])]
+        if quick:
+            trs = (trs[:6] if k < 1000 else trs[:2]) + [t for i, t in enumerate(trs[6:]) if (i + k) % 4 == 0]
+        for name, params in trs:
+            planned.append(('thresholds-arity', 'arity %d' % k, name, params, 3, [[1], [-2], [2, -3]], 0, None))
+
+    # ---- many variables ----
+    for ni, N in enumerate([257, 300, 1025] if quick else [255, 256, 257, 258, 300, 1000, 1025]):
+        F = [[1], [-2], [N], [-(N - 1)], [N, -N], [N - 2, N - 2], [min(255, N), -(N - 3)], [-min(256, N), 254, min(256, N)]]
+        if N >= 258:
+            F += [[256], [-257], [257, 257], [255, -258], [258, -256, 257]]
+        style = STYLES[ni % 3]
+        trs = [t for t in transformations(rng, N, True, maxk=2) if 'comp' not in t[0]]
+        if quick and N > 300:
+            trs = [t for i, t in enumerate(trs) if i % 3 == 0 or t[0] in ('flip', 'ite')]
+        for R in ((N + 3, 300) if N != 300 else (257, 1000)):
+            trs.append(('xorcomp', [R, low_degree_graph(rng, N, R, 2)]))
+            trs.append(('majcomp', [R, low_degree_graph(rng, N, R, 2)]))
+        for name, params in trs:
+            planned.append(('thresholds-many-variables', '%d variables (%s)' % (N, style), name, params, N, F, 0,
+                            (lambda N=N, F=F, style=style: build_formula(CNF, N, F, style))))
+
+    # ---- repeated / missing labels ----
+    for tag, spec in LABEL_SHAPES:
+        G0 = build_spec(CNF, spec, [])
+        N = G0.number_of_variables()
+        for rep in range(1 if quick else 3):
+            F = [[rng.choice([1, -1]) * rng.randint(1, N) for _ in range(rng.randint(1, 3))] for _ in range(rng.randint(1, 4))]
+            F.append([N])
+            for name, params in transformations(rng, N, quick, maxk=2):
+                planned.append(('shapes-labels', tag, name, params, N, F, 0, (lambda spec=spec, F=F: build_spec(CNF, spec, F))))
+
+    # ---- size estimate, trimming, case tuples ----
+    cases = []
+    for idx, (stream, tag, name, params, N, F, cap, builder) in enumerate(planned):
+        if cap:
+            F = trim_formula(F, (lambda l, name=name, params=params: gadget_cost(name, params, l)), cap)
+        G = (builder or plain(N, F))()
+        assert G.number_of_variables() == N, (tag, G.number_of_variables(), N)
+        ctx.tally(stream + ': shape', tag)
+        ctx.tally(stream + ': transformation', name)
+        ctx.tally(stream + ': largest clause width', max([len(c) for c in F] + [0]))
+        descr = dict(transformation=name, params=params, numvar=N, clauses=F, shape=tag)
+        site = None
+        if stream == 'shapes-labels':
+            descr['variables_created_by'] = [list(x) for x in dict(LABEL_SHAPES)[tag]]
+            if tag == 'no-label':
+                site = 'substitution-of-unlabelled-variable'
+        cases.append((stream, descr, name, params, N, F, impl_thunk(S, G, name, params), (stream, idx), True, site))
+    return cases
+
+
+HISTORY_TRS = [('flip', []), ('ite', []), ('xor', [2]), ('or', [2]), ('maj', [3]), ('one', [2]), ('eq', [2]), ('neq', [2]),
+               ('lift', [1]), ('lift', [2]), ('atleast', [2, 1]), ('exact', [3, 1]), ('anybut', [2, 1]), ('linear', [2, '<', 2]),
+               ('or', [1]), ('xor', [1])]
+
+
+def history_cases(ctx, quick, CNF, S):
+    """one formula object edited through its public API and transformed again after every edit; the result of a
+    transformation transformed again (chains).  The source object must not change."""
+    rng = ctx.rng
+    cases = []
+    for hi in range(12 if quick else 120):
+        G = CNF()
+        steps = []
+        if rng.random() < 0.5:
+            n0 = rng.randint(0, 3)
+            G.update_variable_number(n0)
+            steps.append(['update_variable_number', n0])
+        for ei in range(rng.randint(3, 6)):
+            N0 = G.number_of_variables()
+            edit = rng.choice(['clause-new-variables', 'clause-new-variables', 'clause-old', 'raise', 'new_variable', 'new_block',
+                               'empty-clause', 'same-label'])
+            if edit == 'clause-new-variables':
+                c = [rng.choice([1, -1]) * (N0 + rng.randint(1, 4)) for _ in range(rng.randint(1, 2))]
+                if N0 and rng.random() < 0.6:
+                    c.append(rng.choice([1, -1]) * rng.randint(1, N0))
+                G.add_clause(c)
+                steps.append(['add_clause', c])
+            elif edit == 'clause-old':
+                c = [rng.choice([1, -1]) * rng.randint(1, N0) for _ in range(rng.randint(1, 3))] if N0 else []
+                G.add_clause(c)
+                steps.append(['add_clause', c])
+            elif edit == 'raise':
+                d = rng.randint(2, 5)
+                G.update_variable_number(N0 + d)
+                steps.append(['update_variable_number', N0 + d])
+            elif edit == 'new_variable':
+                G.new_variable('v%d' % ei)
+                steps.append(['new_variable', 'v%d' % ei])
+            elif edit == 'same-label':
+                G.new_variable('p')
+                steps.append(['new_variable', 'p'])
+            elif edit == 'new_block':
+                G.new_block(2, label='b_{}')
+                steps.append(['new_block', 2, 'b_{}'])
+            else:
+                G.add_clause([])
+                steps.append(['add_clause', []])
+            ctx.tally('history: edit', edit)
+            N, F = G.number_of_variables(), [list(c) for c in G]
+            if max([len(c) for c in F] + [0]) > 3 or len(F) > 6:
+                break
+            labels = list(G.all_variable_labels())
+            for ti in range(2):
+                name, params = rng.choice(HISTORY_TRS)
+                r = run_now(impl_thunk(S, G, name, params))
+                descr = dict(transformation=name, params=params, numvar=N, clauses=F, history=[list(x) for x in steps])
+                ctx.tally('history: transformation', name)
+                if (G.number_of_variables(), [list(c) for c in G], list(G.all_variable_labels())) != (N, F, labels):
+                    ctx.violation('counterexample', 'the transformation changed the formula it was given',
+                                  dict(input=descr, after=[G.number_of_variables(), [list(c) for c in G]]), True,
+                                  site=IMPL_NAME[name], cls='source-modified')
+                cases.append(('history', descr, name, params, N, F, frozen(r), ('hist', hi, ei, ti), bool(F)))
+                # chain: transform the result again
+                if r[0] == 'ok' and ti == 0:
+                    H = r[1]
+                    N2, F2 = H.number_of_variables(), [list(c) for c in H]
+                    if N2 <= 40 and len(F2) <= 60 and max([len(c) for c in F2] + [0]) <= 6:
+                        name2, params2 = rng.choice(HISTORY_TRS[:2] + HISTORY_TRS[13:] + [('or', [2]), ('lift', [1])])
+                        r2 = run_now(impl_thunk(S, H, name2, params2))
+                        descr2 = dict(transformation=name2, params=params2, numvar=N2, clauses=F2,
+                                      history=[list(x) for x in steps] + [[name] + list(params)])
+                        ctx.tally('history: chained transformation', name + ' then ' + name2)
+                        cases.append(('history', descr2, name2, params2, N2, F2, frozen(r2), ('chain', hi, ei), bool(F2)))
+    return cases
+
+
 def run(ctx):
     import_impl()
     from cnfgen.formula.cnf import CNF
@@ -465,6 +950,10 @@ def run(ctx):
     import cnfgen
     quick = ctx.tier == 'quick'
     rng = ctx.rng
+
+    # ---- stream 0: corpus of large / rare inputs, and edited formula objects ----
+    run_cases(ctx, large_cases(ctx, quick, CNF, S))
+    run_cases(ctx, history_cases(ctx, quick, CNF, S))
 
     # ---- stream 1: random small formulas x all transformations ----
     nform = 36 if quick else 260
@@ -552,5 +1041,24 @@ def replay(ctx, rp):
     if 'clauses' not in d:
         return run(ctx)
     N, F, name, params = d['numvar'], d['clauses'], d['transformation'], d['params']
-    G = build_formula(CNF, N, F, d.get('style', 'anonymous'))
-    run_cases(ctx, [('replay', d, name, params, N, F, impl_thunk(S, G, name, params), 'replay', True)])
+    if 'variables_created_by' in d:
+        G = build_spec(CNF, [tuple(tuple(y) if isinstance(y, list) else y for y in x) for x in d['variables_created_by']], F)
+    elif 'history' in d:
+        G = CNF()
+        if d.get('initial_variables'):
+            G.update_variable_number(d['initial_variables'])
+        for st in d['history']:
+            if st[0] == 'add_clause':
+                G.add_clause(st[1])
+            elif st[0] == 'update_variable_number':
+                G.update_variable_number(st[1])
+            elif st[0] == 'new_variable':
+                G.new_variable(st[1])
+            elif st[0] == 'new_block':
+                G.new_block(st[1], label=st[2])
+            else:       # a transformation (chains)
+                G = impl_thunk(S, G, st[0], st[1:])()
+    else:
+        G = build_formula(CNF, N, F, d.get('style', 'anonymous'))
+    site = 'substitution-of-unlabelled-variable' if d.get('shape') == 'no-label' else None
+    run_cases(ctx, [('replay', d, name, params, N, F, impl_thunk(S, G, name, params), 'replay', True, site)])
